@@ -352,7 +352,10 @@ func runC02(r *evid.Run) {
 			sig := parts[0] + ":" + class
 			ctx["i2rw_completed_with_own_received_high"] = map[string]bool{"simulator": simRefire, "generated_verilog": hdlRefire}
 			ctx["hdl_output_valid_held_after_received"] = run.HdlValidHeld
+			ctx["simulator_output_valid_held_after_received"] = run.SimValidHeld
 			switch {
+			case run.SimValidHeld:
+				sig = "streams-differ:simulator-holds-valid-after-received:" + class
 			case run.HdlValidHeld:
 				// not the recorded defect: the producer did not withdraw valid when the pinned r2owa does
 				sig = "streams-differ:hdl-holds-valid-after-received:" + class
@@ -628,6 +631,8 @@ type fabricRun struct {
 	// a processor output of the generated hardware kept valid high for more than three clocks while its
 	// received line was high (the pinned r2owa lowers it in the clock after the instruction is over)
 	HdlValidHeld bool
+	// the same in the simulator (the pinned r2owa lowers valid in the tick in which it sees received)
+	SimValidHeld bool
 }
 
 func fabricInput(port, k int) uint64 { return uint64(10*(port+1)+1+k) % 256 }
@@ -680,9 +685,22 @@ func runFabric(f fabMachine, bm *bondmachine.Bondmachine, netlist func(d *vlog.D
 	prePc := make([]uint64, len(f.Progs))
 	preHigh := make([]bool, len(f.Progs))
 	sendSince := make([]int, len(f.Progs)) // ticks the processor has been at its current SEND
+	simHeld := map[[2]int]int{}
 	envSimTick = func(vm *bondmachine.VM, pre bool) {
 		for p := range f.Progs {
 			pv := vm.Processors[p]
+			if !pre {
+				for o := range pv.OutputsValid {
+					if o < len(pv.OutputsRecv) && pv.OutputsValid[o] && pv.OutputsRecv[o] {
+						simHeld[[2]int{p, o}]++
+						if simHeld[[2]int{p, o}] > 3 {
+							out.SimValidHeld = true
+						}
+					} else {
+						simHeld[[2]int{p, o}] = 0
+					}
+				}
+			}
 			if pre {
 				prePc[p], preHigh[p] = pv.Pc, false
 				if in := at(p, pv.Pc, "RECV"); in >= 0 && in < len(pv.InputsRecv) {
